@@ -99,18 +99,30 @@ def _sha_tree(root, rels):
         p = os.path.join(root, rel)
         h.update(rel.encode())
         with open(p, "rb") as f:
-            h.update(f.read())
+            body = f.read()
+        if b"/harness/inject_ext/" in body:
+            # the include line of an extension harness file is not part of the other harnesses' key (ext_inject_files)
+            body = b"".join(l for l in body.splitlines(True) if not (l.startswith(b"#[cfg(kani)] include!(") and b"/harness/inject_ext/" in l))
+        h.update(body)
     return h.hexdigest()
 
 
-def inject_files():
-    d = os.path.join(VERIF, "harness", "inject")
+def inject_files(sub="inject"):
+    d = os.path.join(VERIF, "harness", sub)
     out = []
-    for fn in sorted(os.listdir(d)):
+    for fn in (sorted(os.listdir(d)) if os.path.isdir(d) else []):
         m = re.match(r"^(crypto|cli|ffi)__([a-z_]+)\.rs$", fn)
         if m:
             out.append((m.group(1), m.group(2), os.path.join(d, fn)))
     return out
+
+
+def ext_inject_files():
+    """Extension harness files (harness/inject_ext): injected like the others, but self-contained modules whose text is
+    part of the result-cache key of the harnesses DEFINED IN THEM only (spec ext=True). Adding one therefore does not
+    force every other harness of the crate to be solved again; Kani compiles per harness only what that harness reaches,
+    so an extra sibling module cannot change another harness's verdict."""
+    return inject_files("inject_ext")
 
 
 def prepare_tree(slot, real_zeroize=False, replay=False):
@@ -124,7 +136,7 @@ def prepare_tree(slot, real_zeroize=False, replay=False):
     if r.returncode != 0:
         raise InfraError("rsync failed: " + r.stderr)
     touched = []
-    for crate, module, path in inject_files():
+    for crate, module, path in inject_files() + ext_inject_files():
         src = os.path.join(tree, "src", crate, "src", module + ".rs")
         if not os.path.exists(src):
             raise InfraError("cannot inject: %s missing in working tree" % src)
@@ -196,6 +208,11 @@ def prepare_tree(slot, real_zeroize=False, replay=False):
         return hh.hexdigest()
     digests = {"kestrel-crypto": crate_digest("crypto"), "kestrel-cli": crate_digest("cli"),
                "kestrel-ffi": crate_digest("ffi")}
+    hx = hashlib.sha256()
+    for _c, _m, p_ in ext_inject_files():
+        with open(p_, "rb") as f:
+            hx.update(f.read())
+    ext_digest = hx.hexdigest()
     digest = hashlib.sha256(json.dumps(digests, sort_keys=True).encode()).hexdigest()
     prev = None
     try:
@@ -213,6 +230,7 @@ def prepare_tree(slot, real_zeroize=False, replay=False):
     os.makedirs(os.path.dirname(slot.state), exist_ok=True)
     with open(slot.state, "w") as f:
         json.dump({"digest": digest, "crates": digests, "at": time.time()}, f)
+    digests = dict(digests, __ext__=ext_digest)
     return digest, digests
 
 
